@@ -349,3 +349,63 @@ def a8(ctx):
     if n < 10:
         raise AnalysisError("vCard evaluation modules not found")
     return obs
+
+
+@rule("C12", "A9", floor=3, kind="S",
+      desc="a collation compares both operands after the same character-by-character mapping: every entry of the "
+           "collation table applies one and the same chain of encode/upper/lower/casefold to the search text and to the "
+           "value (title()/capitalize() depend on the position inside the word: 'mith' no longer matches 'Smith')")
+def a9(ctx):
+    PER_CHAR = {"encode", "upper", "lower", "casefold"}
+    mod = ctx.P.modules["xandikos.collation"]
+    table = mod.const_exprs.get("collations")
+    if not isinstance(table, ast.Dict):
+        raise AnalysisError("xandikos.collation.collations is no longer a dict display")
+    obs = []
+
+    def chain(e, param, depth=0):
+        """method names applied to *param* in e (innermost first), looking through one-expression helper functions of the
+        module (`_fold(a)` with `def _fold(t): return t.encode(...).upper()`); None if e is not such a chain."""
+        if depth > 6:
+            return None
+        if isinstance(e, ast.Name):
+            return [] if e.id == param else None
+        if isinstance(e, ast.Call) and isinstance(e.func, ast.Attribute):
+            inner = chain(e.func.value, param, depth + 1)
+            return None if inner is None else inner + [e.func.attr]
+        if isinstance(e, ast.Call) and isinstance(e.func, ast.Name) and len(e.args) == 1 and not e.keywords:
+            g = mod.functions.get(e.func.id)
+            if g is None or isinstance(g.node, ast.Lambda) or len(g.node.args.args) != 1:
+                return None
+            body_ = [s_ for s_ in g.node.body if not (isinstance(s_, ast.Expr) and isinstance(s_.value, ast.Constant))]
+            if len(body_) != 1 or not isinstance(body_[0], ast.Return) or body_[0].value is None:
+                return None
+            pre = chain(e.args[0], param, depth + 1)
+            rest = chain(body_[0].value, g.node.args.args[0].arg, depth + 1)
+            return None if pre is None or rest is None else pre + rest
+        return None
+
+    for k, v in zip(table.keys, table.values):
+        name = k.value if isinstance(k, ast.Constant) else src(k)
+        fn = v
+        if isinstance(fn, ast.Name):
+            f_ = mod.functions.get(fn.id)
+            fn = f_.node if f_ is not None else fn
+        if not isinstance(fn, (ast.Lambda, ast.FunctionDef)):
+            raise AnalysisError("collation %s is not a lambda / function of the module" % name)
+        params = [a.arg for a in fn.args.args]
+        body = fn.body if isinstance(fn, ast.Lambda) else next((s_.value for s_ in fn.body if isinstance(s_, ast.Return)), None)
+        problem = None
+        if not (isinstance(body, ast.Call) and len(body.args) >= 2 and len(params) >= 2):
+            raise AnalysisError("collation %s: body is not a call with the two operands (not modelled)" % name)
+        ca, cb = chain(body.args[0], params[0]), chain(body.args[1], params[1])
+        if ca is None or cb is None:
+            problem = "operands are not `%s` / `%s` under a chain of str methods" % (params[0], params[1])
+        elif ca != cb:
+            problem = "the search text goes through %s, the value through %s" % (ca or "nothing", cb or "nothing")
+        elif set(ca) - PER_CHAR:
+            problem = "%s() is not a character-by-character mapping" % sorted(set(ca) - PER_CHAR)[0]
+        obs.append(ctx.ob(problem is None, "xandikos.collation.collations[%r]" % name, "%s:%d" % (mod.rel, v.lineno),
+                          "collation %s maps both operands alike, per character" % name, "chain %s" % (ca,),
+                          "collation %s: %s, so whether a text matches depends on where in the value it occurs" % (name, problem)))
+    return obs
